@@ -81,6 +81,7 @@ FSome == {NoFilter, F("nott", 1), F("ge", 3)}
 FAll == {NoFilter, F("orig", 0), F("synth", 0), F("nott", 1), F("onlyt", 2), F("ge", 3), F("lt", 4)}
 OrderStated == <<"open", "close", "clear", "filter">>
 OrderClearFirst == <<"open", "clear", "close", "filter">>
+OrderClearAlso == <<"open", "clear", "close", "clear", "filter">>      \* the recorded edit: CLEAR also applied before CLOSE
 OrderCloseFirst == <<"close", "open", "clear", "filter">>
 OrderFilterFirst == <<"filter", "open", "close", "clear">>
 =============================================================================
